@@ -8,13 +8,15 @@ REPO = os.environ.get('HEPH_REPO', '/repo')
 
 class ClassInfo:
     def __init__(self, name, module, node, cid):
-        self.name = name
+        self.name = name       # simple name
         self.module = module
         self.node = node
-        self.bases = []        # names
+        self.raw_bases = []    # ('name', id) | ('attr', alias, attr)
+        self.bases = []        # keys of the base classes (after Frontend.finalize)
         self.methods = {}      # name -> FunctionDef
         self.cid = cid
         self.class_attrs = {}  # name -> ast expr
+        self.key = name        # canonical name: the simple name if unique among the loaded modules, else '<modtail>.<name>'
 
 
 class Module:
@@ -33,7 +35,12 @@ class Frontend:
     def __init__(self, repo=None):
         self.repo = repo or REPO
         self.modules = {}
-        self.classes = {}      # simple class name -> ClassInfo (first wins; qualified also stored)
+        self.classes = {}      # canonical key -> ClassInfo (see finalize)
+        self.all_classes = []
+        self.by_simple = {}
+        self._mro_cache = {}
+        self._sub_cache = {}
+        self.finalized = True
         self._next_cid = 1
 
     def module(self, name):
@@ -59,17 +66,17 @@ class Frontend:
                 self._next_cid += 1
                 for b in st.bases:
                     if isinstance(b, ast.Name):
-                        ci.bases.append(b.id)
-                    elif isinstance(b, ast.Attribute):
-                        ci.bases.append(b.attr)
+                        ci.raw_bases.append(('name', b.id))
+                    elif isinstance(b, ast.Attribute) and isinstance(b.value, ast.Name):
+                        ci.raw_bases.append(('attr', b.value.id, b.attr))
                 for it in st.body:
                     if isinstance(it, ast.FunctionDef):
                         ci.methods[it.name] = it
                     elif isinstance(it, ast.Assign) and len(it.targets) == 1 and isinstance(it.targets[0], ast.Name):
                         ci.class_attrs[it.targets[0].id] = it.value
                 m.classes[st.name] = ci
-                self.classes.setdefault(st.name, ci)
-                self.classes[name + '.' + st.name] = ci
+                self.all_classes.append(ci)
+                self.finalized = False
             elif isinstance(st, ast.Import):
                 for a in st.names:
                     m.imports[a.asname or a.name.split('.')[0]] = a.name if a.asname else a.name.split('.')[0]
@@ -121,8 +128,74 @@ class Frontend:
         return hashlib.sha256(seg.encode()).hexdigest()[:16]
 
     # ---- class table helpers
-    def mro(self, cname):
-        """linearised bases by simple DFS (sufficient: single inheritance mostly)"""
+    def finalize(self):
+        """compute canonical keys (simple name if unique among loaded modules, else '<modtail>.<name>') and resolve bases"""
+        if self.finalized:
+            return
+        by_simple = {}
+        for ci in self.all_classes:
+            by_simple.setdefault(ci.name, []).append(ci)
+        self.classes = {}
+        self.by_simple = by_simple
+        for ci in self.all_classes:
+            ci.key = ci.name if len(by_simple[ci.name]) == 1 else ci.module.split('.')[-1] + '.' + ci.name
+            self.classes[ci.key] = ci
+        self.finalized = True
+        self._mro_cache = {}
+        self._sub_cache = {}
+        for ci in self.all_classes:
+            ci.bases = []
+            m = self.modules[ci.module]
+            for rb in ci.raw_bases:
+                k = None
+                if rb[0] == 'name':
+                    k = self.resolve(rb[1], m, strict=False)
+                else:
+                    target = m.imports.get(rb[1])
+                    if target and target in self.modules and rb[2] in self.modules[target].classes:
+                        k = self.modules[target].classes[rb[2]].key
+                if k is not None:
+                    ci.bases.append(k)
+        self.finalized = True
+        self._mro_cache = {}
+        self._sub_cache = {}
+
+    def resolve(self, name, module=None, strict=True):
+        """canonical key of a class named `name` as seen from `module` (None: sidecar context)"""
+        if not self.finalized:
+            self.finalize()
+        if name in self.classes:
+            return name
+        if module is not None:
+            if name in module.classes:
+                return module.classes[name].key
+            q = module.imports.get(name)
+            if q:
+                mod, _, cn = q.rpartition('.')
+                if mod in self.modules and cn in self.modules[mod].classes:
+                    return self.modules[mod].classes[cn].key
+        if '.' in name:
+            tail, _, cn = name.rpartition('.')
+            for ci in self.by_simple.get(cn, []):
+                if ci.module == tail or ci.module.endswith('.' + tail):
+                    return ci.key
+        cands = self.by_simple.get(name, [])
+        if len(cands) == 1:
+            return cands[0].key
+        if len(cands) > 1:
+            for ci in cands:
+                if ci.module == 'src.ir.types':
+                    return ci.key
+            if strict:
+                raise KeyError('ambiguous class name %s: %s' % (name, [c.key for c in cands]))
+        return None
+
+    def mro(self, key):
+        """linearised bases by DFS (sufficient for the hierarchies here)"""
+        if not self.finalized:
+            self.finalize()
+        if key in self._mro_cache:
+            return self._mro_cache[key]
         out = []
         seen = set()
 
@@ -133,21 +206,20 @@ class Frontend:
             out.append(n)
             for b in self.classes[n].bases:
                 go(b)
-        go(cname)
+        go(key)
+        self._mro_cache[key] = out
         return out
 
-    def subclasses(self, cname):
-        """all loaded classes whose mro contains cname (including itself)"""
-        res = []
-        for n, ci in self.classes.items():
-            if '.' in n:
-                continue
-            if cname in self.mro(n):
-                res.append(n)
-        return res
+    def subclasses(self, key):
+        """all loaded classes whose mro contains key (including itself)"""
+        if not self.finalized:
+            self.finalize()
+        if key not in self._sub_cache:
+            self._sub_cache[key] = [n for n in self.classes if key in self.mro(n)]
+        return self._sub_cache[key]
 
-    def resolve_method(self, cname, meth):
-        for c in self.mro(cname):
+    def resolve_method(self, key, meth):
+        for c in self.mro(key):
             ci = self.classes[c]
             if meth in ci.methods:
                 return ci, ci.methods[meth]
